@@ -80,7 +80,7 @@ CHECKS = {
         text="spec/Names.tla models the identifiers the translator invents (letter table, plurals, reserved words of the policy "
              "language and of the preamble) and TLC checks NoReserved/DistinctInScope for up to 60 allocations (refuted for the "
              "shipped table at index 11); spec/ShapeCases.tla enumerates the shape space of well-formed declarative profiles "
-             "(25 constraint kinds x 10 path shapes x 8 connective contexts; siblings x depth x context x quantifier; number of "
+             "(25 constraint kinds x 16 path shapes x 8 connective contexts; how a validation is listed; siblings x depth x context x quantifier; number of "
              "validations; hash-sampled remainder), evaluating the naming invariants for the variables each shape needs; every "
              "emitted shape is rendered, compiled with CompileProfile and run once.",
         ref="DESIGN.md §6 C07", technique="TLA+ model of identifier allocation + TLC-enumerated shape space replayed into CompileProfile",
